@@ -2,7 +2,7 @@
 # tools/check_seeds.sh : every kept seeded change must still apply to /repo HEAD and be reported by its property's check
 cd "$(dirname "$0")/.." || exit 2
 rc=0
-for d in seeded/C*-s[0-9]; do
+for d in seeded/C*-s[0-9]*; do
   id=$(basename $d); prop=${id%%-*}
   if grep -q obsolete_on_head $d/meta.json; then echo "$id: obsolete on HEAD (see meta.json): $(tools/trymutant.sh $d/patch.diff $prop 2>&1 | tail -1 | cut -c1-100)"; continue; fi
   if ! git -C /repo apply --check $PWD/$d/patch.diff 2>/dev/null; then echo "$id: patch does not apply to HEAD"; rc=1; continue; fi
